@@ -566,6 +566,7 @@ func (n *node) RouteLinkPID(pid gen.PID, target gen.PID) error {
 		if _, exist := n.processes.Load(target); exist == false {
 			return gen.ErrProcessUnknown
 		}
+		lib.VerifPoint("link.checked", target)
 		return n.targetManager.AddLink(pid, target)
 	}
 
@@ -626,6 +627,7 @@ func (n *node) RouteLinkProcessID(pid gen.PID, target gen.ProcessID) error {
 		if _, exist := n.names.Load(target.Name); exist == false {
 			return gen.ErrProcessUnknown
 		}
+		lib.VerifPoint("link.checked", target)
 		return n.targetManager.AddLink(pid, target)
 	}
 
@@ -683,6 +685,7 @@ func (n *node) RouteLinkAlias(pid gen.PID, target gen.Alias) error {
 		if _, exist := n.aliases.Load(target); exist == false {
 			return gen.ErrAliasUnknown
 		}
+		lib.VerifPoint("link.checked", target)
 		return n.targetManager.AddLink(pid, target)
 	}
 
@@ -748,9 +751,11 @@ func (n *node) RouteLinkEvent(pid gen.PID, target gen.Event) ([]gen.MessageEvent
 		}
 
 		event := value.(*eventOwner)
+		lib.VerifPoint("link.checked", target)
 		if err := n.targetManager.AddLink(pid, target); err != nil {
 			return nil, err
 		}
+		lib.VerifPoint("event.sub.added", target)
 
 		if event.last != nil {
 			// load last N events
@@ -865,6 +870,7 @@ func (n *node) RouteMonitorPID(pid gen.PID, target gen.PID) error {
 				return gen.ErrProcessTerminated
 			}
 		}
+		lib.VerifPoint("link.checked", target)
 		return n.targetManager.AddMonitor(pid, target)
 	}
 
@@ -928,6 +934,7 @@ func (n *node) RouteMonitorProcessID(pid gen.PID, target gen.ProcessID) error {
 				return gen.ErrProcessTerminated
 			}
 		}
+		lib.VerifPoint("link.checked", target)
 		return n.targetManager.AddMonitor(pid, target)
 	}
 
@@ -987,6 +994,7 @@ func (n *node) RouteMonitorAlias(pid gen.PID, target gen.Alias) error {
 		if _, exist := n.aliases.Load(target); exist == false {
 			return gen.ErrAliasUnknown
 		}
+		lib.VerifPoint("link.checked", target)
 		return n.targetManager.AddMonitor(pid, target)
 	}
 
@@ -1051,9 +1059,11 @@ func (n *node) RouteMonitorEvent(pid gen.PID, target gen.Event) ([]gen.MessageEv
 			return nil, gen.ErrEventUnknown
 		}
 		event := value.(*eventOwner)
+		lib.VerifPoint("link.checked", target)
 		if err := n.targetManager.AddMonitor(pid, target); err != nil {
 			return nil, err
 		}
+		lib.VerifPoint("event.sub.added", target)
 
 		if event.last != nil {
 			// load last N events
